@@ -203,3 +203,141 @@ Proof.
       apply slots_ok_clear; [|exact Hlt|exact L]. eapply SI; [exact Ge|reflexivity].
     + intros k' Hk'. rewrite (F2 k' Hk'), (F1 k' Hk'). unfold gset. destruct (k' =? k); [reflexivity|apply F; exact Hk'].
 Qed.
+
+(* ---------------------------------------------------------------- one step of a history *)
+Definition op_keys_ok (o : op) : Prop :=
+  match o with
+  | OFind k | OErase k => k < K64
+  | OFoi k _ | OInsert k _ => k < K64
+  | OIter => True
+  end.
+Definition is_iter (o : op) : bool := match o with OIter => true | _ => false end.
+
+Definition ghost_step (M : gmap) (o : op) (r : res) : gmap :=
+  match o, r with
+  | OFoi k _, RFoi a true => gset M k (Some a)
+  | OInsert k _, RPtr (Some a) => gset M k (Some a)
+  | OErase k, _ => gset M k None
+  | _, _ => M
+  end.
+(* the documented preconditions: insert only absent keys, erase only present keys *)
+Definition pre_ok (M : gmap) (o : op) : Prop :=
+  match o with OInsert k _ => M k = None | OErase k => M k <> None | _ => True end.
+
+Definition fresh (M : gmap) (a : addr) : Prop := forall k', k' < K64 -> M k' <> Some a.
+
+Definition res_ok (M : gmap) (o : op) (r : res) : Prop :=
+  match o with
+  | OFind k => r = RPtr (M k)
+  | OFoi k _ => exists a b, r = RFoi a b /\ (forall a0, M k = Some a0 -> a = a0 /\ b = false) /\
+                            (M k = None -> b = true /\ fresh M a)
+  | OInsert k _ => exists a, r = RPtr (Some a) /\ fresh M a
+  | OErase _ => r = RUnit
+  | OIter => True
+  end.
+
+Definition pre_assert (w : stopwhy) : Prop :=
+  w = AInsertPresent \/ w = AEraseNull \/ w = AErasePrefix \/ w = AEraseMask.
+
+Lemma insert_unfold esz lsz s k v :
+  insert esz lsz s k v =
+    x <- find_or_insert esz lsz s k v ;;
+    if snd (snd x) then Ok (fst x, fst (snd x)) else AssertStop AInsertPresent.
+Proof.
+  unfold insert, insert_prog, find_or_insert. rewrite run_pbind.
+  destruct (run_prog s (foi_prog esz lsz s k v)) as [[s' [a b]]| | |]; cbn [bind fst snd]; try reflexivity.
+  rewrite run_lift. destruct b; cbn [assert bind]; reflexivity.
+Qed.
+
+Theorem step_safe esz lsz s M o : Good s M -> op_keys_ok o -> is_iter o = false ->
+  (exists s' r, step_op esz lsz s o = Ok (s', r) /\ Good s' (ghost_step M o r) /\ res_ok M o r) \/
+  (~ pre_ok M o /\ exists w, step_op esz lsz s o = AssertStop w /\ pre_assert w).
+Proof.
+  intros G Hk Hi. destruct o as [k|k v|k v|k|]; cbn [op_keys_ok is_iter] in *; try discriminate.
+  - left. exists s, (RPtr (M k)). cbn [step_op]. rewrite (g_find _ _ G k Hk). cbn [bind]. split; [reflexivity|]. split; [exact G|reflexivity].
+  - left. destruct (foi_good esz lsz s M k v G Hk) as (s' & a & b & R & Hp & Ha & G').
+    exists s', (RFoi a b). cbn [step_op]. rewrite R. cbn [bind fst snd]. split; [reflexivity|]. split.
+    + cbn [ghost_step]. destruct b; exact G'.
+    + exists a, b. split; [reflexivity|]. split; [intros a0 E; destruct (Hp a0 E) as (A & B & _); auto|exact Ha].
+  - destruct (foi_good esz lsz s M k v G Hk) as (s' & a & b & R & Hp & Ha & G').
+    cbn [step_op]. rewrite insert_unfold, R. cbn [bind fst snd].
+    destruct (M k) as [a0|] eqn:Mk.
+    + right. destruct (Hp a0 eq_refl) as (_ & -> & _). split; [cbn; congruence|].
+      exists AInsertPresent. split; [reflexivity|left; reflexivity].
+    + left. destruct (Ha eq_refl) as (-> & Fr). exists s', (RPtr (Some a)). split; [reflexivity|]. split; [exact G'|].
+      exists a. split; [reflexivity|exact Fr].
+  - destruct (M k) as [a0|] eqn:Mk.
+    + left. destruct (erase_good esz lsz s M k G Hk) as (s' & R & G'); [congruence|].
+      exists s', RUnit. split; [exact R|]. split; [exact G'|reflexivity].
+    + right. split; [cbn; congruence|]. pose proof (g_find _ _ G k Hk) as F. rewrite Mk in F.
+      destruct (erase_absent s k (g_inv _ _ G) Hk F) as (w & R & Hw).
+      exists w. split; [|right; exact Hw]. cbn [step_op]. rewrite F. cbn [bind]. rewrite R. reflexivity.
+Qed.
+
+(* ---------------------------------------------------------------- histories *)
+Fixpoint run_ghost (esz lsz : N) (s : st) (M : gmap) (l : list op) : outcome (st * gmap) :=
+  match l with
+  | [] => Ok (s, M)
+  | o :: r => x <- step_op esz lsz s o ;; run_ghost esz lsz (fst x) (ghost_step M o (snd x)) r
+  end.
+
+Lemma run_ghost_run_ops esz lsz l : forall s M,
+  run_ops esz lsz s l = x <- run_ghost esz lsz s M l ;; Ok (fst x).
+Proof.
+  induction l as [|o l IH]; intros s M; cbn [run_ops run_ghost bind]; [reflexivity|].
+  destruct (step_op esz lsz s o) as [[s' r]| | |]; cbn [bind fst snd]; try reflexivity. apply IH.
+Qed.
+
+(* a history that respects the documented preconditions (w.r.t. the ghost map as it evolves) *)
+Fixpoint valid (esz lsz : N) (s : st) (M : gmap) (l : list op) : Prop :=
+  match l with
+  | [] => True
+  | o :: r => op_keys_ok o /\ is_iter o = false /\ pre_ok M o /\
+              forall s' x, step_op esz lsz s o = Ok (s', x) -> valid esz lsz s' (ghost_step M o x) r
+  end.
+
+Theorem history_refines esz lsz l : forall s M, Good s M -> valid esz lsz s M l ->
+  exists s' M', run_ghost esz lsz s M l = Ok (s', M') /\ Good s' M'.
+Proof.
+  induction l as [|o l IH]; intros s M G V; cbn [run_ghost].
+  - eauto.
+  - destruct V as (Hk & Hi & Hpre & V).
+    destruct (step_safe esz lsz s M o G Hk Hi) as [(s' & r & R & G' & _)|(Hn & _)]; [|contradiction].
+    rewrite R. cbn [bind fst snd]. apply IH; [exact G'|]. apply (V s' r R).
+Qed.
+
+Definition safe_outcome {A} (o : outcome A) : Prop :=
+  match o with Ok _ => True | AssertStop w => pre_assert w | UB _ => False | OutOfFuel => False end.
+
+Theorem history_safe esz lsz l : forall s M, Good s M -> Forall op_keys_ok l -> Forall (fun o => is_iter o = false) l ->
+  safe_outcome (run_ops esz lsz s l).
+Proof.
+  induction l as [|o l IH]; intros s M G Hk Hi; cbn [run_ops]; [exact I|].
+  inversion Hk as [|? ? Hk1 Hk2]; subst. inversion Hi as [|? ? Hi1 Hi2]; subst.
+  destruct (step_safe esz lsz s M o G Hk1 Hi1) as [(s' & r & R & G' & _)|(_ & w & R & Hw)].
+  - rewrite R. cbn [bind fst]. eapply IH; eassumption.
+  - rewrite R. exact Hw.
+Qed.
+
+(* address stability *)
+Theorem step_address_stable esz lsz s M o s' r k a : Good s M -> op_keys_ok o -> is_iter o = false ->
+  k < K64 -> M k = Some a -> step_op esz lsz s o = Ok (s', r) -> o <> OErase k ->
+  find s' k = Ok (Some a).
+Proof.
+  intros G Hk Hi Hkk Mk R Hne.
+  destruct (step_safe esz lsz s M o G Hk Hi) as [(s1 & r1 & R1 & G1 & Hr)|(_ & w & R1 & _)]; [|congruence].
+  rewrite R in R1. injection R1 as <- <-. rewrite (g_find _ _ G1 k Hkk). f_equal.
+  destruct o as [k0|k0 v|k0 v|k0|]; cbn [ghost_step res_ok] in *; try discriminate.
+  - exact Mk.
+  - destruct Hr as (a1 & b & -> & Hp & Ha). destruct b; [|exact Mk]. unfold gset.
+    destruct (N.eqb_spec k k0) as [->|]; [|exact Mk].
+    destruct (Hp a Mk) as (_ & E). discriminate.
+  - destruct Hr as (a1 & -> & Fr). unfold gset. destruct (N.eqb_spec k k0) as [->|]; [|exact Mk].
+    exfalso. destruct (step_safe esz lsz s M (OInsert k0 v) G Hk Hi) as [(s2 & r2 & R2 & _ & a2 & -> & Fr2)|(Hn & w & R2 & _)].
+    + (* insert succeeded although k0 was present: impossible, its result would be fresh yet equal to a *)
+      clear R2. pose proof (foi_good esz lsz s M k0 v G Hkk) as (s3 & a3 & b3 & R3 & Hp3 & _).
+      cbn [step_op] in R. rewrite insert_unfold, R3 in R. cbn [bind fst snd] in R.
+      destruct (Hp3 a Mk) as (_ & -> & _). discriminate.
+    + congruence.
+  - unfold gset. destruct (N.eqb_spec k k0) as [->|]; [exfalso; apply Hne; reflexivity|exact Mk].
+Qed.
